@@ -88,9 +88,20 @@ def check_pair(orig, emitted, rnd, k):
     return None
 
 
+def use_standin(mode):
+    """route the tool's solver calls to the stand-in solver executable (mode: optimal | model:K)"""
+    import os
+    from monitors import c06
+    drive.setup()
+    c06.setup_standin()
+    os.environ["GASOL_VERIF_SOLVER_MODE"] = mode
+
+
 def handle(case):
     block = [tuple(x) for x in case["block"]]
     opts = case["opts"]
+    if case.get("solver_mode"):
+        use_standin(case["solver_mode"])
     rnd = random.Random(case.get("sseed", 0))
     orig, emitted, info = run_pipeline(block, opts)
     res = {"changed": info["changed"], "rules": sorted(set(info["rules"])), "exc": info["exc"][:3],
@@ -148,6 +159,20 @@ def run():
     quick = common.tier() == "quick"
     n = 5000 if quick else 50000
     cases = common.gen_cases(n, common.seed(), common.GREEDY_OPTS, k_states=24 if quick else 96)
+    # solver back-ends with the stand-in solver: the Max-SMT optimum and adversarial (non-optimal) models
+    import random as _random
+    from monitors import c06
+    rs = _random.Random(common.seed() + 101)
+    solver_sets = [(["-solver", "z3"], "optimal"), (["-solver", "z3"], "model:3"), (["-solver", "oms", "-ub-greedy"], "optimal"),
+                   (["-solver", "z3", "-ub-greedy"], "model:5"), (["-solver", "z3", "-size"], "optimal"),
+                   (["-solver", "z3", "-ub-greedy", "-length", "-push0"], "model:1")]
+    n_solver = 40 if quick else 400
+    for (o, mode) in solver_sets:
+        blocks = c06.dep_blocks(rs, n_solver // 2) + [gen.gen_block(rs, "short")[0][:7] for _ in range(n_solver // 2)]
+        for b in blocks:
+            cases.append({"block": b, "opts": o, "sseed": rs.getrandbits(30), "kind": "solver:" + mode.split(":")[0],
+                          "_group": " ".join(o) + "#" + mode, "k": 24, "idx": len(cases), "solver_mode": mode, "_cpu": 120})
+    cases.sort(key=lambda c: c["_group"])
 
     class Col(common.Collector):
         changed = set()
@@ -178,7 +203,8 @@ def run():
         "candidates_rejected_by_tool_checker": col.stat.get("own_checker_rejected_candidate", 0),
         "budget_exceeded_cases": {k: v for k, v in col.stat.items() if k.startswith("budget_")},
         "budget_exceeded_examples": col.fails[:3], "pool": st,
-        "back_ends": "greedy (Max-SMT / ub-greedy with the stand-in solver are driven by monitors/c06)"})
+        "back_ends": "greedy; Max-SMT and -ub-greedy through the stand-in solver (modes optimal and model:K)",
+        "solver_backed_cases": sum(v for k, v in col.by_kind.items() if k.startswith("solver:"))})
     r.assumptions = ["vlib/evm.py reference interpreter (operators cross-checked against z3 bit-vectors)",
                      "GAS/PC/MSIZE values are not compared; states on which the original halts exceptionally are skipped",
                      "equivalence decided on sampled states (boundary, aliasing, harvested-operand classes)"]
